@@ -635,11 +635,42 @@ func GenNamedUniverse(t *rapid.T, prefix string, n int) []*StructSpec {
 	}
 	var out []*StructSpec
 	for i := 0; i < n; i++ {
+		// references stay inside small clusters of four consecutive types: many independent
+		// (possibly cyclic) clusters instead of one giant component, so that each cluster can be
+		// first-used on its own (C08 releases goroutines onto one whole cluster at a time)
+		lo := i / 4 * 4
+		hi := lo + 4
+		if hi > n {
+			hi = n
+		}
 		c := GenCfg{MaxFields: 9, MaxNest: 0, Holder: true, Extras: true, BigIDs: i%7 == 3, Spellings: true,
-			NamedRefs: names, NoCopy: i%5 == 4}
+			NamedRefs: names[lo:hi], NoCopy: i%5 == 4}
 		c.maxNestZero = true
 		s := genStruct(t, c, 0, "")
 		s.Name = names[i]
+		if hi-lo > 1 {
+			// a ring through the cluster guarantees mutual nesting (every member reaches every other);
+			// the ring field sits at a random position among the others, in a random container form
+			next := names[lo+(i-lo+1)%(hi-lo)]
+			rt := &TypeSpec{Kind: KStruct, Ref: next, Ptr: true}
+			switch rapid.IntRange(0, 4).Draw(t, "ringform") {
+			case 1:
+				rt = &TypeSpec{Kind: KList, Elem: rt}
+			case 2:
+				rt = &TypeSpec{Kind: KMap, Key: &TypeSpec{Kind: KString}, Elem: rt}
+			case 3:
+				rt = &TypeSpec{Kind: KSet, Elem: rt}
+			}
+			rid := uint16(200)
+			for s.ByID(rid) != nil {
+				rid++
+			}
+			rf := &FieldSpec{ID: rid, Name: fmt.Sprintf("Ring_%d", rid), Req: Optional, Type: rt}
+			pos := rapid.IntRange(0, len(s.Fields)).Draw(t, "ringpos")
+			s.Fields = append(s.Fields, nil)
+			copy(s.Fields[pos+1:], s.Fields[pos:])
+			s.Fields[pos] = rf
+		}
 		if ZeroSize(s) {
 			// named types can end up as map keys (by pointer): keep them non-zero-size
 			s.Fields = append(s.Fields, &FieldSpec{ID: 30000, Name: "Pad_30000", Type: &TypeSpec{Kind: KI32}})
